@@ -346,6 +346,25 @@ def run(ctx):
                 okr = False
         ctx.check("flow:validate_remote:return:%s" % tag, okr and nret == 1, "the accumulated failures are what is returned", rules.where(f), fn=f)
 
+    # ---------------------------------------------------------------- 5b. no sigrefs verification error is dropped
+    # a remote whose signed refs cannot be loaded/verified must fail the step (or be pruned); silently leaving it out of
+    # the set that the validation loop iterates keeps its already queued updates alive
+    VER = r"^radicle_fetch::state::Cached::load$|^radicle::storage::refs::SignedRefsAt::(load|load_at)$|^radicle::storage::refs::SignedRefs::(verified|verify)$"
+    nver = 0
+    for f in db.all_fns():
+        if f["crate"] != "radicle_fetch":
+            continue
+        for bb in rules.call_blocks(f, VER):
+            t = f["blocks"][bb]["t"]
+            if "Result<" not in f["locals"][t[3][0]][0]:
+                continue
+            nver += 1
+            path = rules.err_dropped(db, f, bb)
+            ctx.check("errflow:sigrefs:%s:%d" % (cfg.short(db.root_of(f)["key"]), sorted(rules.call_blocks(f, VER)).index(bb)), path is None,
+                      "a failure to load/verify a remote's signed refs is propagated, not dropped (a dropped remote is never visited by the "
+                      "validation loop, so its queued ref updates would be applied unvalidated)", rules.where(f, bb), detail={"path": path}, fn=f)
+    ctx.floor("errflow:sigrefs", nver, 2, "call sites of the signed-refs loaders in radicle-fetch")
+
     # ---------------------------------------------------------------- 6. DataRefs::prepare_updates
     pu = db.one(r"^<radicle_fetch::stage::DataRefs as radicle_fetch::stage::ProtocolStage>::prepare_updates$")
     if pu is None:
